@@ -10,7 +10,9 @@ else
   rm -f _CoqProject.new
 fi
 if [ $# -eq 0 ]; then
-  timeout 2700 make -j"${VERIF_JOBS:-16}" > build.log 2>&1 || { grep -v '^Warning' build.log | tail -40; exit 1; }
+  # -k: one area's broken file must not prevent the others from being built;
+  # a check whose own theories are missing fails later, by itself
+  timeout 2700 make -k -j"${VERIF_JOBS:-16}" > build.log 2>&1 || { grep -v '^Warning' build.log | grep -B2 -A12 'Error' | tail -60; exit 1; }
 else
   timeout 2700 make -j"${VERIF_JOBS:-16}" "$@" > build.$$.log 2>&1 || { grep -v '^Warning' build.$$.log | tail -40; rm -f build.$$.log; exit 1; }
   rm -f build.$$.log
